@@ -1151,19 +1151,23 @@ impl FatVolume {
             new_cluster,
             end_cluster
         );
+        // Not finding another free cluster is not an error: the cluster we
+        // just took may have been the last one. The hint becomes unknown.
         self.next_free_cluster =
             match self.find_next_free_cluster(block_cache, new_cluster, end_cluster) {
                 Ok(cluster) => Some(cluster),
-                Err(_) if new_cluster.0 > RESERVED_ENTRIES => {
+                Err(Error::NotEnoughSpace) if new_cluster.0 > RESERVED_ENTRIES => {
                     match self.find_next_free_cluster(
                         block_cache,
                         ClusterId(RESERVED_ENTRIES),
                         end_cluster,
                     ) {
                         Ok(cluster) => Some(cluster),
+                        Err(Error::NotEnoughSpace) => None,
                         Err(e) => return Err(e),
                     }
                 }
+                Err(Error::NotEnoughSpace) => None,
                 Err(e) => return Err(e),
             };
         debug!("Next free cluster is {:?}", self.next_free_cluster);
